@@ -404,6 +404,14 @@ def run(ctx):
                 txt += "# " + o["what"] + "\n"
         ctx.violation("oracle", txt)
     ctx.notes["oracle_failures"] = len(new)
+    # the compile half (pattern compiler, name tests with namespaces, score classes): built as its own family (props/C09_compile.py)
+    try:
+        import importlib
+        compile_part = importlib.import_module("props.C09_compile")
+    except ImportError:
+        compile_part = None
+    if compile_part is not None:
+        compile_part.run_part(ctx)
     return ctx.finish(LEVEL, explanation="theorems over the Gallina model of stepPattern/doStepPredicate/handleFoundIndex and of the pattern compiler's op-code choice + correspondence of the extracted matcher (and of the extracted specification) with the rebuilt library on every node + independent oracle inside the library (getMatchScore vs XPath::execute over all ancestor-or-self contexts)")
 
 
